@@ -2,6 +2,10 @@
 check (yet) or outside the reach of static analysis are in NOT_APPLICABLE with the reason."""
 
 CLAIMS = {
+    "C16": {
+        "text": "Decides relational clauses of Datagrams::take_segments: self.contents is touched only through mem::take / Bytes::split_to and the returned contents is exactly that value (conservation, order); the split length is min(num_segments * segment_size, self.contents.len()) (at most n segments, never more than there is); every result keeps self.ecn; the result's segment size is None on the unsegmented path and otherwise Some(self's size) exactly when more than one segment was taken (truth function over n in {1,>1} x taken.len() <,=,> segment_size); self.segment_size is cleared exactly when at most one segment remains. The byte values, Bytes' own semantics and multiplication overflow (checked: panics) are not decided.",
+        "technique": "who-writes / exact provenance of the returned fields, operand provenance of min(), decision-tree (truth-function) extraction over ordering cells of (length, segment size)",
+    },
     "C28": {
         "text": "Decides relational clauses of add_report_history_and_set_preferred_relay: report.preferred_relay is written only with the url of an entry of this report's relay_latency that has a windowed best latency, or with the previous preferred relay and then only if that relay was measured in this report; best_recent merges exactly the previous reports within MAX_AGE (= 300 s) and the current one; the candidate is a running minimum of best_recent.get(url); the latency the candidate is compared with is the LOWEST latency the current report holds for the previous relay (running minimum over its per-probe entries); the previous relay is restored exactly when it exists, differs from the candidate, was measured now and candidate_best > previous / 3 * 2 (truth functions extracted from the MIR, operands by exact provenance). Duration arithmetic and Instant ordering are not evaluated.",
         "technique": "decision-tree (truth-function) extraction of accumulator updates and of the stickiness decision over slot states, exact operand provenance, who-writes of the result field, constant evaluation",
@@ -175,7 +179,6 @@ CLAIMS = {
 _PENDING = "rules for this property are not implemented yet in this revision (see DESIGN.md §4 for the planned structural clauses)"
 
 NOT_APPLICABLE = {
-    "C16": "Arithmetic partition of a byte buffer by run-time lengths and segment sizes; needs symbolic evaluation, not code shape.",
 }
 for _i in range(1, 44):
     _p = "C%02d" % _i
